@@ -163,7 +163,7 @@ class Conv:
                     same = A.eq(A_, B_)
             if not same:
                 try:
-                    same = vanishes_under(A_ - B_, d_)
+                    same = equal_under(A_, B_, [d_])
                 except Exception:
                     same = False
             if not same and (ACTIVE_PATH_DIFFS or A.CTX.hyps):
@@ -610,8 +610,7 @@ def cmp_struct(run, S, name, got, exp, rule, where=None, tag='ret', hyp=None):
                 ok = A.eq(el_of(x), el_of(y))
                 if not ok and ACTIVE_PATH_DIFFS:
                     # equal whenever the path's own equalities (and the standing hypotheses) hold
-                    ok = any(vanishes_under(el_of(x) - el_of(y), d_) for d_ in ACTIVE_PATH_DIFFS) or \
-                        vanishes_under_all(el_of(x) - el_of(y), list(ACTIVE_PATH_DIFFS))
+                    ok = equal_under(el_of(x), el_of(y), list(ACTIVE_PATH_DIFFS))
             else:
                 ok = (x == y)
         except (ValueError, ZeroDivisionError) as ex:
@@ -701,7 +700,9 @@ ACTIVE_PATH_DIFFS = []
 def _poly_form(d, raw=False):
     """d == 0 rewritten as P == 0 with P free of negative powers: denominators (inv[Q]^e, x^-e) multiplied away"""
     K = A.CTX.kind
-    if raw:
+    if raw or (A.is_poly(d) and not any(K[v][0] in ('sqrt', 'inv') for v in d.atoms())):
+        # already a polynomial in plain atoms: taken as it is (normalising would rewrite it with the very hypothesis that
+        # may have been derived from it)
         return d if A.is_poly(d) and not d.zero() else None
     d = d.norm()
     for _ in range(4):
@@ -722,6 +723,69 @@ def _poly_form(d, raw=False):
             f = f.rawmul(El({tuple(sorted((v, -e) for v, e in negs.items())): Fr(1)}))
         d = (d * f).norm()
     return d if A.is_poly(d) and not d.zero() else None
+
+
+def radical_substitutions(d, atoms):
+    """What the equality d == 0 says about DEFINED atoms: with h the polynomial form of d,
+    sqrt[R] with R - k h = c > 0 (a constant)  becomes sqrt(c);   inv[P] with P - k h = c != 0  becomes 1/c;
+    sqrt[R1], sqrt[R2] with R1 - R2 = k h  become the same atom.   Returns {atom id: El}."""
+    h = _poly_form(d)
+    if h is None:
+        return {}
+    K = A.CTX.kind
+    lm = A.lead(h)
+    if not lm:
+        return {}
+    mp = {}
+    sq = [v for v in atoms if K[v][0] == 'sqrt' and A.is_poly(K[v][1])]
+    iv = [v for v in atoms if K[v][0] == 'inv' and A.is_poly(K[v][1])]
+
+    def residue(R):
+        """R - k h with k chosen to cancel h's leading monomial; None if that monomial does not occur in R"""
+        if lm not in R.t:
+            return None
+        k = R.t[lm] / h.t[lm]
+        return (R - h * El.c(k)).norm()
+    for v in sq:
+        r = residue(K[v][1])
+        if r is not None and r.is_const() and r.const() > 0:
+            mp[v] = A.sqrt(El.c(r.const()))
+    for v in iv:
+        r = residue(K[v][1])
+        if r is not None and r.is_const() and r.const() != 0:
+            mp[v] = El.c(1 / r.const())
+    for i, v1 in enumerate(sq):
+        if v1 in mp:
+            continue
+        for v2 in sq:
+            if v2 >= v1 or v2 in mp:
+                continue
+            df = (K[v1][1] - K[v2][1]).norm()
+            if df.zero():
+                continue
+            if lm in df.t and (df - h * El.c(df.t[lm] / h.t[lm])).norm().zero():
+                mp[v1] = El.a(v2)
+                break
+    return mp
+
+
+def equal_under(x, y, diffs):
+    """x == y whenever the equalities diffs hold: each alone by divisibility, by what it says about radicals and quotients,
+    all together by bounded ideal membership (sufficient conditions only)"""
+    if A.eq(x, y):
+        return True
+    for d_ in diffs:
+        try:
+            if vanishes_under(x - y, d_):
+                return True
+            mp = radical_substitutions(d_, x.atoms() | y.atoms())
+            if mp:
+                x2, y2 = A.deep_substitute(x, mp), A.deep_substitute(y, mp)
+                if A.eq(x2, y2) or vanishes_under(x2 - y2, d_):
+                    return True
+        except ZeroDivisionError:
+            pass
+    return bool(diffs) and vanishes_under_all(x - y, list(diffs))
 
 
 def hyp_relations():
